@@ -158,6 +158,9 @@ func (e *EncryptColumn[T]) aesDecrypt(data []byte) ([]byte, error) {
 	if err != nil {
 		return nil, err
 	}
+	if len(data) < gcm.NonceSize() {
+		return nil, errors.New("ekit EncryptColumn 密文长度不足")
+	}
 	nonce, cipherData := data[:gcm.NonceSize()], data[gcm.NonceSize():]
 	return gcm.Open(nil, nonce, cipherData, nil)
 }
